@@ -61,6 +61,7 @@ def required(tier):
         "with_action_names": 30,
         "with_ignore_case": 20,
         "with_named_matches": 30,
+        "with_one_operator_on_most_references": 30,
     }
     for s in SHAPES:
         d["shape." + s] = 10
@@ -102,6 +103,9 @@ def gen_modular(rng):
                     out.append(("%s.%s.%s" % (alias[(f, t)], alias[(t, t2)], l), (t2, l), 2))
         return out
 
+    # "heavy" grammars: most references to imported rules carry the same operator, so one rule
+    # is used with it from several files and along several import paths
+    heavy = rng.choice(["?", "?", "*", "+"]) if rng.random() < 0.15 else None
     rules = {}  # (file, local) -> list of alternatives; alt = list of ("t", char) | ("n", (file, local), text, rep)
     for f in files:
         vis = visible(f)
@@ -116,7 +120,11 @@ def gen_modular(rng):
                         if depth == 2:
                             feats.add("nested")
                         rep = ""
-                        if rng.random() < 0.12:
+                        if heavy and rng.random() < 0.7:
+                            rep = heavy
+                            feats.add("rep")
+                            feats.add("heavy")
+                        elif rng.random() < 0.12:
                             rep = rng.choice(["+", "?", "*"])
                             feats.add("rep")
                         alt.append(("n", tgt, text, rep))
@@ -413,7 +421,7 @@ def one(ctx):
     ctx.count("grammars")
     ctx.count("shape." + m["shape"])
     for ft in m["feats"]:
-        ctx.count({"alias": "with_alias", "override": "with_override", "nested": "with_nested_reference", "rep": "with_repetition", "empty": "with_explicit_empty", "subdirs": "with_subdirectories", "keyword": "with_keyword", "actions": "with_action_names", "ignore_case": "with_ignore_case", "named": "with_named_matches"}[ft])
+        ctx.count({"alias": "with_alias", "override": "with_override", "nested": "with_nested_reference", "rep": "with_repetition", "empty": "with_explicit_empty", "subdirs": "with_subdirectories", "keyword": "with_keyword", "actions": "with_action_names", "ignore_case": "with_ignore_case", "named": "with_named_matches", "heavy": "with_one_operator_on_most_references"}[ft])
     if (lr is None) != (flr is None):
         ctx.case((str(texts), "lr-build"), True)
         kf2 = kf
